@@ -154,6 +154,37 @@ def total_order_rule(ck, facts):
                        "transitive and the result depends on the input order" % (fn.name, src_name), "%s:%s" % (t["file"], t["line"]))
             else:
                 ck.ok("R14.2", "%s: Option<Ordering> defaulted without a second order" % fn.name, nontrivial=False)
+        # the same fallback spelled `match a.partial_cmp(b) { Some(o) => o, None => <other order> }`
+        from mirutil import try_success_edge
+        for bi, t in fn.calls():
+            if len(t["dest"]) != 1 or fn.locals[t["dest"][0]]["ty"] != "std::option::Option<std::cmp::Ordering>":
+                continue
+            if call_name_matches(t, r"Option::<T>::(map|and_then|or|or_else|filter)$"):
+                continue
+            edge = try_success_edge(fn, t)
+            if not edge or fn.blocks[edge[0]]["t"].get("variants", {}).get("enum") != "core::option::Option":
+                continue
+            sw, some_t, none_t = edge
+            region = fn.reachable(none_t, avoid={some_t})
+            region -= fn.reachable(some_t, avoid={none_t})
+            other_order = [(fn.blocks[b]["t"]["f"].get("name") or "") for b in sorted(region) if fn.blocks[b]["t"]["t"] == "call"
+                           and re.search(r"::cmp$|::partial_cmp$", fn.blocks[b]["t"]["f"].get("name") or "")]
+            n += 1
+            src_name = t["f"].get("name")
+            short = re.sub(r"^expression::", "", fn.name)
+            if other_order:
+                ck.bad("R14.2", "R14.2@%s#partial-order-fallback" % short,
+                       "%s orders two values with the partial comparison `%s` and, where that is undefined, falls back to the different order "
+                       "`%s`: the combination is not transitive in general (e.g. \"2\"^^xsd:integer < \"10.0\"^^xsd:decimal by value, but "
+                       "both compare with \"x\"^^<..#e> by datatype IRI, giving a cycle), so ORDER BY results depend on the input order and "
+                       "comparable values can come out reversed" % (fn.name, src_name, other_order[0]), "%s:%s" % (t["file"], t["line"]))
+            elif re.search(r"sparql_order_by|cmp_bindings_with|order_by", fn.name):
+                ck.bad("R14.2", "R14.2@%s#partial-order-constant" % short,
+                       "%s turns the partial comparison `%s` into an Ordering by answering a constant where it is undefined: in a sort "
+                       "comparator incomparable values then tie with everything, the relation is not transitive" % (fn.name, src_name),
+                       "%s:%s" % (t["file"], t["line"]))
+            else:
+                ck.ok("R14.2", "%s: Option<Ordering> matched without a second order" % fn.name, nontrivial=False)
     ck.floor("R14.2", "Option<Ordering> fallbacks analysed", n, 1)
 
 
